@@ -26,6 +26,7 @@ class Checker:
         self.bottomup = bool(shape['cfg'].get('bottomup')); self.pconsume = knobs.get('pConsume', 0); self.inj = set(shape.get('inj', []))
         self.inst = {}
         self.mirror_on = bool(knobs.get('mirror', 0)); self.verbose_log = bool(knobs.get('verboseLog', 0)); self.names = None
+        self.idmask = 0xff if shape['cfg'].get('payload') == 'tiny' else None
         self.taskcap = knobs.get('taskcap', 0); self.plans_on = bool(knobs.get('plans', 0))
         self.auth_notes = set(); self.auth_single_round = True; self.ylist = []; self.vflag = None; self.bytes = None
     # ------------------------------------------------------------------
@@ -104,6 +105,8 @@ class Checker:
                 elif not guards: pre.append(('T', a[0], a[1], a[2])); self.pl.append(('t', a, None, 0))
             elif t == 'q':
                 lastq = a
+                if self.idmask is not None: a = [a[0], a[1], a[2] & self.idmask, a[3]] + list(a[4:])
+                if len(a) > 4 and a[4]: a = [a[0], a[1], -1, a[3]]; self.stats['C14.requests-without-payload'] += 1
                 if cbs and not guards and a[3] >= 0: self.pl.append(('q', a, cbs[-1], 0))
                 req = (a[0], a[1], a[2], a[3])
                 if guards: guards[-1]['issue'].append(req)
@@ -301,7 +304,7 @@ class Checker:
                 draws = op.draws or auth.draws
                 if op.act != auth.act or op.sub != auth.sub:
                     if draws: self.stats['C09.replay-diverged-with-random-draws(not judged)'] += 1
-                    else: self.v('C09', 'replay|active-configuration-differs-from-authority' + ('|schedule-applied-in-vetoed-round' if getattr(self, 'auth_vetoed_sched', False) else '') + ('|remain-only-round' if self.auth_notes and 'remain-only-round' in self.auth_notes else ''), op, {'authority': [auth.act, auth.sub], 'replica': [op.act, op.sub], 'history': self.ylist})
+                    else: self.v('C09', 'replay|active-configuration-differs-from-authority' + ('|schedule-applied-in-vetoed-round' if getattr(self, 'auth_vetoed_sched', False) else ('|remain-only-round' if self.auth_notes and 'remain-only-round' in self.auth_notes else '')), op, {'authority': [auth.act, auth.sub], 'replica': [op.act, op.sub], 'history': self.ylist})
                 elif op.res != auth.res:
                     if self.auth_single_round and not any(y[1] == SCHEDULE for y in self.ylist) and not draws and kind == 'REPLAY':
                         self.v('C09', 'replay|resumable-differs-after-single-round-step', op, {'authority': auth.res, 'replica': op.res, 'history': self.ylist})
@@ -781,7 +784,8 @@ class Checker:
         if op.prev:
             for p in op.prev:
                 if p[0] in (-777, -778): self.v('C14', 'payload|corrupted-in-previousTransitions', op, p)
-            if len(set(p[0] for p in op.prev)) != len(op.prev): self.v('C14', 'payload|ids-merged-in-previousTransitions', op, [p[0] for p in op.prev])
+            withid = [p[0] for p in op.prev if p[0] != -1]
+            if len(set(withid)) != len(withid): self.v('C14', 'payload|ids-merged-in-previousTransitions', op, [p[0] for p in op.prev])
         if prev_op is not None and prev_op.tgt is not None:
             for s, tid in llines:
                 self.stats['C14.lastTransition-reads'] += 1
